@@ -425,7 +425,7 @@ Operate(vs0, op, m, cnt, reg, keys) ==
          [] op = "c" ->
               LET v1 == YankTo(vs, reg, text, ln)
                   pref == IF ln THEN ViIndents(v1, FL(v1, r1)) ELSE USub(FL(v1, r1), 0, o1)
-                  post == IF ln THEN <<NL>> ELSE USub(FL(v1, r2), o2, -1)
+                  post == IF ln \/ ~HasLn(v1, r2) THEN <<NL>> ELSE USub(FL(v1, r2), o2, -1)      \* in an empty buffer the text ends with a newline
                   li == LedInput(keys, pref, post, v1.ai)
                   rep == li[1]
                   ip == InputPos(rep, li[2])
